@@ -465,6 +465,48 @@ func runC06(r *engine.Run) {
 			c.Outcome("cflist/7-masks(library API holds 6; encode not judged)")
 		}
 	})
+	// every zero / non-zero pattern of the seven mask slots x two non-zero fillers
+	r.PartDims("cflist/mask-patterns", []string{"zero/non-zero pattern of 7 masks:128", "non-zero mask value:3"}, 128*3, func(c *engine.Case) {
+		pat := int(c.Index % 128)
+		val := []uint16{0xFFFF, 0x0001, 0x8000}[c.Index/128]
+		b := make([]byte, 16)
+		b[15] = 1
+		last := -1
+		for j := 0; j < 7; j++ {
+			if pat&(1<<uint(j)) != 0 {
+				v := val + uint16(j)*0x0101
+				if v == 0 {
+					v = 1
+				}
+				b[2*j], b[2*j+1] = byte(v), byte(v>>8)
+				last = j
+			}
+		}
+		c.NonTrivial()
+		var l lorawan.CFList
+		if err := l.UnmarshalBinary(b); err != nil {
+			c.Fail("decode-refused/CFList", fmt.Sprintf("%x refused: %v", b, err), nil)
+			return
+		}
+		mp, ok := l.Payload.(*lorawan.CFListChannelMaskPayload)
+		if !ok || len(mp.ChannelMasks) != last+1 {
+			c.Fail("decode/CFList/mask-count", fmt.Sprintf("%x: %d masks, specification %d (up to the last non-zero mask)", b, len(mp.ChannelMasks), last+1), nil)
+			return
+		}
+		for j, m := range mp.ChannelMasks {
+			v := uint16(b[2*j]) | uint16(b[2*j+1])<<8
+			if maskOf(m) != v {
+				c.Fail("decode/CFList/mask", fmt.Sprintf("%x: mask %d decodes to %04x, specification %04x", b, j, maskOf(m), v), nil)
+				return
+			}
+		}
+		if last < 6 {
+			enc, err := l.MarshalBinary()
+			if err != nil || !bytes.Equal(enc, b) {
+				c.Fail("encode/CFList/masks", fmt.Sprintf("%x re-encodes to %x (err %v)", b, enc, err), nil)
+			}
+		}
+	})
 	r.PartDims("cflist/channel-sweep", []string{"position:15", "byte:256"}, 15*256, func(c *engine.Case) {
 		b := make([]byte, 16)
 		for k := 0; k < 15; k++ {
